@@ -45,7 +45,11 @@ type verifC11Env struct {
 var verifC11 verifC11Env
 
 func verifC11Setup(string) {
-	cfg, err := pipeline.LoadConfig(c11perm.TieConfig + "\nchecks {\n  enabled = [\"rule/label\", \"promql/regexp\", \"promql/syntax\"]\n}\n")
+	// the tie configuration plus a block whose check is a different instance (it also constrains the value) but
+	// says exactly the same about a rule without the label: two different jobs then produce identical reports,
+	// which only the collector can fold
+	dup := "\nrule {\n  label \"team\" {\n    required = true\n    value    = \".+\"\n    severity = \"warning\"\n  }\n}\n"
+	cfg, err := pipeline.LoadConfig(c11perm.TieConfig + dup + "\nchecks {\n  enabled = [\"rule/label\", \"promql/regexp\", \"promql/syntax\"]\n}\n")
 	if err != nil {
 		panic(err)
 	}
@@ -79,7 +83,7 @@ func verifC11Reference(fi int) (string, string) {
 	if err != nil {
 		return "", err.Error()
 	}
-	out, herr := c11perm.Outcome(sum.Reports())
+	out, herr := c11perm.OutcomeOfSummary(sum.Reports())
 	if herr != "" {
 		return "", herr
 	}
@@ -127,7 +131,7 @@ func verifC11Schedules(c *explore.Chooser) *explore.Case {
 		order = append(order, fmt.Sprintf("%s/%s/%s", r.Rule.Name(), r.Problem.Reporter, r.Problem.Severity))
 	}
 	cs.AddToSet("arrival_orders", fmt.Sprintf("%d:%s", fi, strings.Join(order, ",")))
-	got, herr := c11perm.Outcome(summary.Reports())
+	got, herr := c11perm.OutcomeOfSummary(summary.Reports())
 	if herr != "" {
 		cs.Violate("schedules: "+herr, herr, input)
 		return cs
@@ -146,7 +150,7 @@ func verifC11Schedules(c *explore.Chooser) *explore.Case {
 func verifC11Main() {
 	explore.Main(&explore.Config{
 		Property: "C11", Level: "exploration",
-		Rule: "space 'permutations': " + c11perm.Rule + "; space 'schedules': the real checkRules (scan.go with its channels, WaitGroup and go statements replaced by scheduler shims) with 1..3 workers on 3 rule files under the tie configuration: every schedule within 2 (thorough 3) departures from the default schedule, with happens-before state caching; oracle: no deadlock, every goroutine finishes, rendered outcome and fail-on verdicts equal those of a free-running single-worker run, and more than one arrival order is observed",
+		Rule: "space 'permutations': " + c11perm.Rule + "; space 'schedules': the real checkRules (scan.go with its channels, WaitGroup and go statements replaced by scheduler shims) with 1..3 workers on 3 rule files under the tie configuration extended by a block whose check instance differs but reports identically (identical reports from two jobs): every schedule within 2 (thorough 3) departures from the default schedule, with happens-before state caching; oracle: no deadlock, every goroutine finishes, rendered outcome and fail-on verdicts equal those of a free-running single-worker run, and more than one arrival order is observed",
 		Assumptions: []string{
 			"arrival order at the results channel is the only way scheduling can influence the summary; the permutations space covers all orders of it, the schedules space the fan-out/fan-in itself",
 			"data races are outside both spaces: a supplementary free-running pass runs the -race build of pint on the tie files and a stress file; it can only add true alarms (the race detector has no false positives) and its schedules are sampled, not enumerated",
